@@ -26,7 +26,9 @@ def scenarios(tier, seed):
              "geo_lo": [[1.0, 2.0, 3.0], [0., 0., 0.], [-0.75, 100.125, 1e-3]][i % 3],
              "dx0": [[0.1, 0.2, 0.4], [1., 1., 1.], [0.015625, 0.5, 3.0]][i % 3], "ref_line_extra": i % 3,
              "box_sizes": [8, 16] if i % 3 == 1 else None, "time": [0.123, 0.0, 1e-9, 42.5][i % 4],
-             "n0": [8, 8, 8] if i % 4 == 3 else None} for i in range(n)]
+             "n0": [8, 8, 8] if i % 4 == 3 else None,
+             "version": [None, "NavierStokes-V1.1", "MyCode 2.0"][i % 3],             # the version line is free text of the writing code
+             "rewrite_in_place": i % 4 == 1} for i in range(n)]
 
 
 def run_scenario(p, wd):
